@@ -55,6 +55,9 @@ func (c *fnCtx) resolveCallee(cc *ssa.CallCommon) calleeInfo {
 	ci.key = c.g.funcKey[fn]
 	if ci.key == "" && fn.Origin() != nil {
 		ci.key = c.g.funcKey[fn.Origin()]
+		if ci.key == "" {
+			ci.key = funcKeyOf(fn.Origin())
+		}
 	}
 	ci.con = c.g.cs.Funcs[ci.key]
 	if ci.con == nil {
